@@ -20,6 +20,7 @@ import (
 
 	"github.com/ajitpratap0/GoSQLX/pkg/gosqlx"
 	"github.com/ajitpratap0/GoSQLX/pkg/sql/ast"
+	"github.com/ajitpratap0/GoSQLX/pkg/sql/tokenizer"
 
 	"verif/props/ops"
 	"verif/sim/canon"
@@ -485,7 +486,7 @@ func innerNodes(v any, root uintptr) []uintptr {
 }
 
 type step struct {
-	kind int // 0 op, 1 release, 2 getnode, 3 verify
+	kind int // 0 op, 1 release, 2 getnode, 3 verify, 4 tokenize on the task's own long-lived tokenizer
 	op   ops.Op
 	arg  int
 }
@@ -530,6 +531,7 @@ type taskState struct {
 	held  []*held
 	fails []core.Violation
 	busy  bool // some value was held while a later step ran
+	tok   *tokenizer.Tokenizer // the task's own instance, used directly call after call (no pool round trip)
 }
 
 var holdKinds = []ops.Kind{ops.TokenizeDirect, ops.TokenizePooled, ops.Parse, ops.ParseCtx, ops.ParseMultiple, ops.ParseRecovery,
@@ -554,6 +556,14 @@ func (p *P) ownRun(r *core.Result, src *tape.Source, trace bool) {
 		n := 1 + src.Intn(8, "c09.nsteps")
 		for i := 0; i < n; i++ {
 			switch k := src.Intn(10, "c09.step"); {
+			case k == 4 && src.Intn(2, "c09.owntok") == 1:
+				// the caller keeps ONE tokenizer and calls it again and again, failed
+				// calls on larger inputs included; every successful result stays held
+				sql := gen.G{S: src}.Any()
+				if src.Intn(3, "c09.owntokfail") == 2 {
+					sql = "SELECT a, b, c, d, e, f, g, h, i, j, k, l, m, n, o, p FROM t\nWHERE x = 1 AND y IN (1, 2, 3, 4, 5, 6, 7, 8) AND z = 'unterminated"
+				}
+				ts.steps = append(ts.steps, step{kind: 4, op: ops.Op{Kind: ops.TokenizeDirect, SQL: sql}})
 			case k <= 4:
 				ts.steps = append(ts.steps, step{kind: 0, op: ops.Gen(src, holdKinds)})
 			case k <= 6:
@@ -582,6 +592,8 @@ func (p *P) ownRun(r *core.Result, src *tape.Source, trace bool) {
 					r.Tracef(true, fmt.Sprintf("  t%d.%d release held[%d mod n]", t, i, st.arg))
 				case 2:
 					r.Tracef(true, fmt.Sprintf("  t%d.%d get node %s, fill, hold", t, i, poolTable[st.arg].Type))
+				case 4:
+					r.Tracef(true, fmt.Sprintf("  t%d.%d own tokenizer: hold %s", t, i, st.op))
 				default:
 					r.Tracef(true, fmt.Sprintf("  t%d.%d verify held values", t, i))
 				}
@@ -674,6 +686,15 @@ func (p *P) runTask(ts *taskState, src *tape.Source, live *liveSet) {
 					}
 				}
 				ts.held = append(ts.held, hh)
+			}
+		case 4:
+			if ts.tok == nil {
+				ts.tok, _ = tokenizer.New()
+			}
+			if ts.tok != nil {
+				if toks, err := ts.tok.Tokenize([]byte(st.op.SQL)); err == nil {
+					ts.held = append(ts.held, &held{what: "tokens (caller's own tokenizer, reused directly)", value: toks, canon0: canon.Of(toks)})
+				}
 			}
 		case 1:
 			if len(ts.held) == 0 {
